@@ -450,6 +450,8 @@ def reuse_worlds(tier):
                                          {"name": "mm", "chr": "chr2", "blocks": [[2501, 2900]], "secondary": True}])
     worlds.append(("multimapper", w2, []))
     worlds.append(("count-exons", w1, ["--count_exons"]))
+    # two BAM files of one experiment (file-name groups; the novel isoform is supported by reads of a single file)
+    worlds.append(("two-bams", w1, ["SPLIT2", "--read_group", "file_name"]))
     if tier == "thorough":
         worlds.append(("no-models", w1, ["--no_model_construction"]))
         worlds.append(("pacbio", w2, ["--data_type", "pacbio_ccs"]))
@@ -469,7 +471,17 @@ def reuse_case(args):
     syn.plant_for_transcripts(world)
     paths = syn.materialise(world, d)
     out1 = os.path.join(d, "out1")
-    rc1 = run.run_isoquant(run.base_argv(paths, out1, extra=["--keep_tmp"] + extra), paths["home"], os.path.join(d, "o1.txt"))
+    argv1 = run.base_argv(paths, out1, extra=["--keep_tmp"] + [x for x in extra if x != "SPLIT2"])
+    if "SPLIT2" in extra:
+        seqs = syn.genome_sequences(world)
+        ra = [r for r in world["reads"] if r["name"].startswith("novel") or r["name"].endswith("_0") or r["name"] in ("ism", "mono")]
+        rb = [r for r in world["reads"] if not any(r is x for x in ra)]
+        b1 = syn.write_bam(world, os.path.join(d, "lib1.bam"), reads=ra, seqs=seqs)
+        b2 = syn.write_bam(world, os.path.join(d, "lib2.bam"), reads=rb, seqs=seqs)
+        i = argv1.index("--bam")
+        argv1[i + 1:i + 2] = [b1, b2]
+        extra = [x for x in extra if x != "SPLIT2"]
+    rc1 = run.run_isoquant(argv1, paths["home"], os.path.join(d, "o1.txt"))
     if rc1 != 0:
         return name, "first run failed rc=%d" % rc1, None
     save = os.path.join(out1, "OUT", "aux", "OUT.save")
